@@ -11,6 +11,7 @@ import (
 	"path/filepath"
 	"runtime"
 	"runtime/metrics"
+	"sort"
 	"strconv"
 	"strings"
 	"sync"
@@ -191,6 +192,47 @@ func c09Space(tier string) (fams []c09Family, total int) {
 				binary.BigEndian.PutUint32(b[fa:], uint32(va))
 				binary.BigEndian.PutUint32(b[fb:], uint32(vb))
 				return fmt.Sprintf("%s: fields at %d,%d = %#x,%#x", s.Name, fa, fb, uint32(va), uint32(vb)), b, s.Raw
+			}})
+		}
+	}
+	// (a'') thorough: two deviations anywhere - every pair of non-overlapping
+	// big-endian 32-bit windows x {0, 2^31-1, 2^32-1, bytes remaining} each (no
+	// field annotation: a lying length together with a lying count or offset,
+	// wherever the two sit)
+	if tier == "thorough" {
+		for si := range seeds {
+			s := seeds[si]
+			n := len(s.Data)
+			if n > 700 {
+				continue
+			}
+			win := n - 3
+			m := win - 4
+			if m < 1 {
+				continue
+			}
+			npairs := m * (m + 1) / 2
+			rowStart := func(a int) int { return a*m - a*(a-1)/2 }
+			pv := func(k, at int) uint32 {
+				switch k {
+				case 0:
+					return 0
+				case 1:
+					return 1<<31 - 1
+				case 2:
+					return 1<<32 - 1
+				}
+				return uint32(n - at)
+			}
+			fams = append(fams, c09Family{"winpairs/" + s.Name, npairs * 16, func(i int) (string, []byte, bool) {
+				p, k := i/16, i%16
+				a := sort.Search(m, func(a int) bool { return rowStart(a+1) > p })
+				bb := a + 4 + (p - rowStart(a))
+				b := append([]byte(nil), s.Data...)
+				va, vb := pv(k/4, a), pv(k%4, bb)
+				binary.BigEndian.PutUint32(b[a:], va)
+				binary.BigEndian.PutUint32(b[bb:], vb)
+				return fmt.Sprintf("%s: 32-bit windows at %d,%d = %#x,%#x", s.Name, a, bb, va, vb), b, s.Raw
 			}})
 		}
 	}
